@@ -1,4 +1,6 @@
 """GP steps and combinators: population-size arithmetic (C15), elitism (C16), selection (C17)."""
+import specs.evaluation  # noqa: F401  (declaration order)
+import specs.sources  # noqa: F401  (declaration order)
 from pyvc.spec import REG as R, Loop
 
 COMB = "geneticengine/algorithms/gp/operators/combinators.py"
